@@ -489,6 +489,9 @@ class C10(engine.Property):
         elif r < 0.3:
             # vertices with value equality and an attribute-based hash
             cfg["vertex_classes"] = ["Vertex", "EqVertex"]
+        elif r < 0.38:
+            # a vertex class whose __getstate__ itself calls nrpickler.dumps
+            cfg["vertex_classes"] = ["Vertex", "NestingVertex"]
         cfg["nu"] = rng.randint(0, 3)
         cfg["grow"] = rng.randint(3, 25)
         cfg["cont"] = rng.randint(3, 25)
